@@ -674,6 +674,36 @@ mut("C08", "changes_collected_before_despawns", "collect_changes runs before col
 
     send_messages("""))
 
+mut("C03", "seeded_c03a_removals_only_for_visible_with_d17", "removals are filtered on state == Visible while a re-shown whitelist entity is classified Gained although the client holds it (c03a on the pre-29f59ef state machine)", ["C03.R6/server::collect_removals/add_removals#1"],
+    ("src/server.rs", "            if visibility.is_none_or(|v| v.is_visible(entity)) {\n                trace!(\n                    \"writing removals", "            if visibility.is_none_or(|v| v.state(entity) == Visibility::Visible) {\n                trace!(\n                    \"writing removals"),
+    ("src/server/client_visibility.rs", """                    if self.removed.remove(&entity) {
+                        list.insert(entity, WhitelistInfo::Visible);
+                        return;
+                    }
+
+""", """                    self.removed.remove(&entity);
+"""))
+
+mut("C15", "seeded_c15a_index_shifted_in_u32", "the index is shifted in u32 before widening (bit 31 of the index is dropped)", ["C15.R4/shared::entity_serde::serialize_entity/lossless/shl#1"],
+    ("src/shared/entity_serde.rs", """    let mut flagged_index = (entity.index() as u64) << 1;
+    let flag = entity.generation() > 1;
+    flagged_index |= flag as u64;
+""", """    let flag = entity.generation() > 1;
+    let flagged_index = u64::from(entity.index() << 1 | flag as u32);
+"""))
+mut("C15", "reader_shifts_index_by_two", "the reader drops two low bits of the flagged index", ["C15.R4/layout/index-shift"],
+    ("src/shared/entity_serde.rs", "(flagged_index >> 1)", "(flagged_index >> 2)"))
+mut("C15", "generation_offset_mismatch", "the writer subtracts 1 from the generation, the reader adds 2", ["C15.R4/layout/generation-offset"],
+    ("src/shared/entity_serde.rs", ".checked_add(1)", ".checked_add(2)"))
+mut("C15", "generation_threshold_mismatch", "the writer omits generations up to 2, the reader substitutes 1", ["C15.R4/layout/absent-generation-default"],
+    ("src/shared/entity_serde.rs", "    let flag = entity.generation() > 1;", "    let flag = entity.generation() > 2;"))
+mut("C15", "flagged_index_narrowed_to_u32", "the flagged index is written as u32 (top bit of the index lost)", ["C15.R4/"],
+    ("src/shared/entity_serde.rs", "    postcard_utils::to_extend_mut(&flagged_index, message)?;", "    postcard_utils::to_extend_mut(&(flagged_index as u32), message)?;"))
+mut("C18", "seeded_c18a_binary_search_on_unsorted", "already-exported ids are looked up with a binary search although the vector is only appended to", ["C18.R1/scene::replicate_into/push"],
+    ("src/scene.rs", "                if exported_ids.contains(&component.id) {", "                if exported_ids.binary_search(&component.id).is_ok() {"))
+mut("C18", "dedup_against_last_only", "only the most recently exported id is compared", ["C18.R1/scene::replicate_into/push"],
+    ("src/scene.rs", "                if exported_ids.contains(&component.id) {", "                if exported_ids.last() == Some(&component.id) {"))
+
 # first-sight completeness (shared rule: C07.R6 / C03.R7 / C08.R6)
 mut("C07", "seeded_c07a_rate_limited_components_skipped", "rate-limited components are skipped before the per-client pass unless just added (late-authorized clients never get them)", ["C07.R6/collect_changes/every-component-reaches-clients"],
     ("src/server.rs", """                let ctx = SerializeCtx {
@@ -1344,5 +1374,22 @@ benign("vis_whitelist_hide_contains_key", "whitelist hide branch tests contains_
                     }
                     list.remove(&entity);
 """))
+
+benign("removals_only_for_visible_after_d17_fix", "collect_removals filters on state == Visible (seeded change c03a): since 29f59ef `Gained` implies the client does not hold the entity, so the removal record is not needed",
+    ("src/server.rs", "            if visibility.is_none_or(|v| v.is_visible(entity)) {\n                trace!(\n                    \"writing removals", "            if visibility.is_none_or(|v| v.state(entity) == Visibility::Visible) {\n                trace!(\n                    \"writing removals"))
+
+benign("scene_dedup_sorted_insert", "scene export keeps the exported ids sorted and looks them up with a binary search",
+    ("src/scene.rs", """                if exported_ids.contains(&component.id) {
+                    continue;
+                }
+                exported_ids.push(component.id);""", """                let Err(pos) = exported_ids.binary_search(&component.id) else {
+                    continue;
+                };
+                exported_ids.insert(pos, component.id);"""))
+benign("entity_serde_from_instead_of_as", "the entity codec widens with u64::from instead of `as`",
+    ("src/shared/entity_serde.rs", """    let mut flagged_index = (entity.index() as u64) << 1;
+    let flag = entity.generation() > 1;
+    flagged_index |= flag as u64;""", """    let flag = entity.generation() > 1;
+    let flagged_index = u64::from(entity.index()) << 1 | u64::from(flag);"""))
 
 BENIGN = B
